@@ -4,7 +4,7 @@
     elapsed time after [k] rounds of the history (see [C04_elapsed_def]),
     [counted_after] the number of recorded samples that count against
     [sample_count], [continue_after] the documented rule. *)
-From DivanV Require Import Base.Res Generated.Consts Model.Timestamp Model.Loop Proofs.Loop Proofs.LoopProps.
+From DivanV Require Import Base.Res Generated.Consts Model.Timestamp Model.Loop Proofs.Loop Proofs.LoopProps Proofs.LoopTotal Proofs.LoopSb.
 Local Open Scope N_scope.
 
 (** Obligations on the generated constants: `elapsed >= max` stops, `elapsed <
@@ -66,3 +66,27 @@ Theorem C04_elapsed_def : forall c init hist out,
      N.min (sum_n (map (fun o => N.max (slowest_of c o) 1000) (firstn k hist))) (2 ^ 128 - 1)).
 Proof. exact elapsed_def. Qed.
 Print Assumptions C04_elapsed_def.
+
+(** The boolean specification used by the violation search ([c04_sb]: the
+    rounds run are the least k of the rule, computed from the logged
+    timestamps) holds of the model's own output for every history, in both
+    modes, zero cases included. *)
+Theorem C04_model_sb : forall c init hist out t s,
+  bench_loop c init hist = Ok out -> seen_of_outcome t out = Ok s ->
+  c04_sb c init (firstn (rounds_of (out_state out)) hist) s = true.
+Proof. exact c04_model_sb. Qed.
+Print Assumptions C04_model_sb.
+
+(** The hypothesis [bench_loop .. = Ok out] of the theorems above is met by
+    every well-formed history: timestamps are u64 values, the frequency is not
+    0, every round brought back at least one sample and, when the size is
+    tuned, the precision is not 0 and no round that fails the threshold has
+    size 2^31 or more. *)
+Theorem C04_loop_total : forall c init hist,
+  c_test c = false -> c_freq c <> 0 -> init < 2 ^ 64 ->
+  (forall o, In o hist -> wf_round o) ->
+  (c_size c = None -> c_prec c <> 0 /\
+     forall i, (i < length hist)%nat -> first_pass c (firstn (S i) hist) = None -> pow2 i < 2 ^ 31) ->
+  exists out, bench_loop c init hist = Ok out.
+Proof. exact loop_total. Qed.
+Print Assumptions C04_loop_total.
